@@ -148,7 +148,7 @@ def run_domain(ctx, rng, w, actions, thorough, n_orders):
             b = model.binding(act_m, call)
             states, exhaustive = gen.covering_states(rng, wm, w, [(act_m.pre, b), (act_m.eff, b)],
                                                      max_exhaustive_bits=7 if thorough else 5,
-                                                     n_random=12 if thorough else 6, n_valuations=2)
+                                                     n_random=12 if thorough else 6, n_valuations=2, n_boundary=1)
             if exhaustive:
                 ctx.count("exhaustive_blocks")
             if not thorough and len(states) > 24:
